@@ -1,0 +1,37 @@
+//go:build verif
+
+package interp
+
+// Contracts for property C13 (restricted mode): the os environment functions installed by
+// fixStdlib implement a map model over interp.env and touch nothing else. Checked by /verif/govc.
+// Comments only.
+
+//@ lit fixStdlib var:getenv (key) (r)
+//@   props C13
+//@   opt safety = off
+//@   ensures virtual-env: r == interp.env[key]
+//@   canary r == ""
+
+//@ lit fixStdlib key:LookupEnv (key) (s, ok)
+//@   props C13
+//@   opt safety = off
+//@   ensures virtual-env: ok == has(interp.env, key) && s == interp.env[key]
+
+//@ lit fixStdlib key:Setenv (key, value) (err)
+//@   props C13
+//@   opt safety = off
+//@   requires interp.env != nil
+//@   ensures stored: err == nil && has(interp.env, key) && interp.env[key] == value
+//@   ensures others-kept: interp.env == old(interp.env) && forallS(k, k != key ==> has(interp.env, k) == old(has(interp.env, k)) && interp.env[k] == old(interp.env[k]))
+//@   canary has(interp.env, key) == old(has(interp.env, key))
+
+//@ lit fixStdlib key:Unsetenv (key) (err)
+//@   props C13
+//@   opt safety = off
+//@   ensures removed: err == nil && !has(interp.env, key)
+//@   ensures others-kept: interp.env == old(interp.env) && forallS(k, k != key ==> has(interp.env, k) == old(has(interp.env, k)) && interp.env[k] == old(interp.env[k]))
+
+//@ lit fixStdlib key:Clearenv () ()
+//@   props C13
+//@   opt safety = off
+//@   ensures emptied: interp.env != nil && forallS(k, !has(interp.env, k))
